@@ -308,7 +308,13 @@ func RunC06(r *core.Rng, run, seed uint64, tier string, cov *Cov) []*Violation {
 	ex.Modes = c06Modes(r, 3)
 	var doc *gen.Doc
 	if r.Chance(0.85) {
-		doc = gen.GenerateSimilar(r, gen.SimilarCfg{Groups: r.Range(1, 5), MaxPerGrp: []int{1, 2, 4, 8}[r.Intn(4)], Files: files, Shuffle: r.Chance(0.5), DupIDs: r.Chance(0.15)})
+		mpg := []int{1, 2, 4, 8}[r.Intn(4)]
+		if r.Chance(0.06) {
+			// a large population (dozens of goroutines, many in the same files)
+			mpg = 32
+			cov.Probe("large-population")
+		}
+		doc = gen.GenerateSimilar(r, gen.SimilarCfg{Groups: r.Range(1, 5), MaxPerGrp: mpg, Files: files, Shuffle: r.Chance(0.5), DupIDs: r.Chance(0.15)})
 	} else {
 		cfg := gen.DefaultCfg(r)
 		cfg.MinDumps, cfg.MaxDumps = 1, 1
